@@ -29,6 +29,11 @@ var verifDir = func() string {
 	return "/verif"
 }()
 
+type droppedFile struct{ config, file, err, src string }
+
+var droppedHarness []droppedFile
+var droppedMu sync.Mutex
+
 type Directive struct {
 	Kind  string // ob | contract | stub
 	Attrs map[string]string
@@ -122,18 +127,51 @@ func loadConfig(config string) (*Loaded, error) {
 		Overlay:    ov,
 		Env:        append(os.Environ(), "GOFLAGS=-mod=mod", "GOPROXY=off", "GOSUMDB=off", "GOTOOLCHAIN=local", "GOARCH=amd64", "GOOS=linux"),
 	}
-	pkgs, err := packages.Load(cfg, "./...")
-	if err != nil {
-		return nil, err
-	}
-	var errs []string
-	packages.Visit(pkgs, nil, func(p *packages.Package) {
-		for _, e := range p.Errors {
-			errs = append(errs, e.Error())
+	var pkgs []*packages.Package
+	for round := 0; ; round++ {
+		pkgs, err = packages.Load(cfg, "./...")
+		if err != nil {
+			return nil, err
 		}
-	})
-	if len(errs) > 0 {
-		return nil, fmt.Errorf("package errors (%s): %s", config, strings.Join(errs, "\n"))
+		var errs []string
+		badHarness := map[string]string{}
+		packages.Visit(pkgs, nil, func(p *packages.Package) {
+			for _, e := range p.Errors {
+				errs = append(errs, e.Error())
+				file := e.Pos
+				if i := strings.Index(file, ":"); i >= 0 {
+					file = file[:i]
+				}
+				if strings.HasPrefix(filepath.Base(file), "zz_verif_") {
+					if _, ok := badHarness[file]; !ok {
+						badHarness[file] = e.Error()
+					}
+				}
+			}
+		})
+		if len(errs) == 0 {
+			break
+		}
+		if len(badHarness) == 0 || round >= 3 {
+			return nil, fmt.Errorf("package errors (%s): %s", config, strings.Join(errs, "\n"))
+		}
+		// a harness file that no longer compiles against the current tree (the code it looks into was restructured)
+		// is dropped: its obligations are reported inconclusive, the harnesses in the other files still run
+		for file, msg := range badHarness {
+			found := false
+			for k, src := range ov {
+				if k == file || filepath.Base(k) == filepath.Base(file) && filepath.Dir(k) == filepath.Dir(file) {
+					droppedMu.Lock()
+					droppedHarness = append(droppedHarness, droppedFile{config: config, file: k, err: msg, src: string(src)})
+					droppedMu.Unlock()
+					delete(ov, k)
+					found = true
+				}
+			}
+			if !found {
+				return nil, fmt.Errorf("package errors (%s): %s", config, strings.Join(errs, "\n"))
+			}
+		}
 	}
 	prog, spkgs := ssautil.AllPackages(pkgs, ssa.InstantiateGenerics)
 	prog.Build()
